@@ -36,3 +36,48 @@ def programs():
         out.append({"name": "gen_calls/%s/%s/%s/%s" % (tname, n1, n2, cname), "defs": DEFS, "fn": fn,
                     "src": DEFS + fn})
     return out
+
+
+# ---- user-defined generic functions (C01): the type parameter next to concrete parts ----------
+# Every generic function USES the concrete part of its parameter in a typed way, so an argument
+# outside the declared parameter type (a union accepted where the parameter names one variant,
+# an optional accepted for 'int) gets stuck at run time.
+GDEFS = (DEFS +
+         "mkb = #'int { =0 => Box[1] | Other },\n"             # Box['int] | Other
+         "mkp = #'int { =0 => [1, 2] | [] },\n"                # ['int, 'int] | []
+         "first = #<'t>Box['t] { .0 },\n"
+         "inc = #<'t>['t, 'int] { .1 [~, 1] __integer_add__ },\n"
+         "same = #<'t>['t, 't] { .0 },\n"
+         "snd = #<'t, 'u>['t, 'u] { .1 },\n"
+         "unbox = #<'t>(Box['t] | Nil) { | =Box[x] => x | =Nil => 0 },\n"
+         "app = #<'t>['t, #'t -> 'int] { =[x, f] => x f },\n"
+         "addone = #'int { [~, 1] __integer_add__ },\n"
+         "pairsum = #<'t>[['int, 'int], 't] { .0 __integer_add__ },\n"
+         )
+
+GMAKERS = MAKERS + [("box", "Box[1]"), ("box_or_other", "n mkb"), ("box_of_int_or_str", "Box[n mk]"),
+                    ("pair_or_nil", "n mkp"), ("nilcase", "Nil")]
+
+GTEMPLATES = [
+    ("first", "{V1} first", 1),
+    ("inc", "[{V1}, {V2}] inc", 2),
+    ("same", "[{V1}, {V2}] same", 2),
+    ("snd", "[{V1}, {V2}] snd", 2),
+    ("unbox", "{V1} unbox", 1),
+    ("app", "[{V1}, &addone] app", 1),
+    ("pairsum", "[{V1}, {V2}] pairsum", 2),
+]
+
+GCONSUMERS = CONSUMERS + [("add", " ~> [~, 1] __integer_add__")]
+
+
+def generic_programs():
+    out = []
+    for (tname, tmpl, arity), (cname, cons) in itertools.product(GTEMPLATES, GCONSUMERS):
+        pairs = itertools.product(GMAKERS, GMAKERS) if arity == 2 else [(m, ("-", "")) for m in GMAKERS]
+        for (n1, v1), (n2, v2) in pairs:
+            body = tmpl.replace("{V1}", v1).replace("{V2}", v2) + cons
+            fn = "#'int { n = $, " + body + " }"
+            out.append({"name": "gen_generic/%s/%s/%s/%s" % (tname, n1, n2, cname), "defs": GDEFS, "fn": fn,
+                        "src": GDEFS + fn})
+    return out
